@@ -180,10 +180,13 @@ def estimateMaxBitplane (np zbp nb : Nat) : Int :=
   else if maxFromPass ≥ 0 then maxFromPass
   else -1   -- (the bit-depth fallback is not reachable with totalPasses > 0)
 
-/-- buildAndDecodeCodeBlocks / decodeCodeBlock for a block of `w × h`: zeros when not decoded (`shouldDecode`) or on a
-    T1 error; otherwise DecodeWithBitplane(data, numPasses, maxBitplane) with OpenJPEG reconstruction, then `/= 2` -/
+/-- buildAndDecodeCodeBlocks / decodeCodeBlock for a block of `w × h`: zeros when not decoded (`shouldDecode`), when
+    the pass counts claim 31 or more bit-planes, or on a T1 error; otherwise DecodeWithBitplane(data, numPasses, maxBitplane) with OpenJPEG reconstruction, then `/= 2` -/
 def t1Decode (w h orient nb : Nat) (i : Incl) (data : List Nat) : Option (List Int) :=
-  let mbp := estimateMaxBitplane i.numPasses i.zbp nb
+  let est := estimateMaxBitplane i.numPasses i.zbp nb
+  -- buildAndDecodeCodeBlocks: 31 or more claimed bit-planes (more than an int32 coefficient has) = corrupt block,
+  -- `info.maxBitplane = -1`, left at zero (repair of C09 class c09-time-j2k-claimed-coding-passes)
+  let mbp : Int := if est ≥ 31 then -1 else est
   if data.isEmpty ∨ mbp < 0 then some (List.replicate (w * h) 0) else
   match T1.decodeBlockOJ w h orient 0 i.numPasses mbp data with
   | .ok out => some (out.map T1.halveT)
